@@ -44,6 +44,9 @@ pub struct Case {
     /// tftpc runs with --keep-on-error
     #[serde(default)]
     pub keep: bool,
+    /// the server runs with --duplicate-packets N
+    #[serde(default)]
+    pub server_dup: u8,
 }
 
 fn run_client(args: &[String], cwd: &Path, limit: Duration) -> Result<(String, String), String> {
@@ -126,6 +129,10 @@ fn run_case(dir: &Path, c: &Case) -> Result<(), (String, String)> {
     }
     if stale && c.upload {
         args.push(wire::s("--overwrite"));
+    }
+    if c.server_dup > 0 {
+        args.push(wire::s("--duplicate-packets"));
+        args.push(c.server_dup.to_string());
     }
     let ip = if c.ipv6 { "::1" } else { "127.0.0.1" };
     let mut srv = match Server::start_on(ip, &args, &root, None) {
@@ -214,6 +221,7 @@ pub fn judge(dir: &Path, c: &Case, obs: &mut Obs) -> Judge {
     let blocks = c.len / c.blk + 1;
     obs.class_if(blocks > 65535, "beyond-65535-blocks");
     obs.class_if(c.stale_dest && c.refusal == Refusal::None, "older-longer-file-at-destination");
+    obs.class_if(c.server_dup > 0, "server-duplicate-packets");
     obs.class_if(c.len % c.blk == 0 && c.len > 0, "exact-multiple");
     obs.nontrivial = c.blk != 512 || c.ws != 1 || blocks >= 2;
     let r = match run_case(dir, c) {
@@ -298,6 +306,9 @@ pub fn strategy() -> BoxedStrategy<Case> {
                 seed,
                 stale_dest: seed % 5 == 0,
                 keep: seed % 3 == 0,
+                // one case in five: the server repeats every data-phase packet (only with short transfers: 1 ms per copy)
+                // (254 copies: the server is busy for a quarter of a second per packet - a slow but loss-free peer for the client's timers)
+                server_dup: if seed % 5 == 1 && blocks <= 3 && blocks >= 1 && seed % 3 == 0 { 254 } else if seed % 5 == 1 && blocks <= 12 { [1u8, 2, 3, 10][(seed / 5 % 4) as usize] } else { 0 },
             }
         })
         .boxed()
@@ -321,17 +332,18 @@ pub fn wrap_cases() -> Vec<Case> {
             seed: 15,
             stale_dest: false,
             keep: false,
+            server_dup: 0,
         });
     }
     // exactly 65536 blocks (the block count itself wraps a 16-bit counter)
     for upload in [true, false] {
-        out.push(Case { single: false, ipv6: false, upload, style: Style::Plain, blk: 8, ws: 64, timeout: 2, len: 65535 * 8 + 5, refusal: Refusal::None, abs_rd: true, seed: 16, stale_dest: false, keep: false });
+        out.push(Case { single: false, ipv6: false, upload, style: Style::Plain, blk: 8, ws: 64, timeout: 2, len: 65535 * 8 + 5, refusal: Refusal::None, abs_rd: true, seed: 16, stale_dest: false, keep: false, server_dup: 0 });
     }
     out
 }
 
 pub fn run(ctx: &Ctx) {
-    ctx.set_rule("the real tftpc is run against the real tftpd: {download, upload} x {single, multi port} x {IPv4, IPv6 loopback if available} x {plain, nested, Windows-style path} x blksize 8..65464 x windowsize 1..65535 x timeout 1..255 x file sizes {0, 1, blk-1, blk, blk+1, W*blk, (W+1)*blk, 2W*blk+r, random} (one burst kept below 100 KB), plus refusals (missing file, existing file without overwrite, read-only server), plus two >65535-block transfers at blksize 8. Oracle after tftpc exits: byte-identical files on both sides; a download is stored at <receive-directory>/<basename>, an upload at <server receive dir>/<basename>; on refusal no file appears on the client side, the server's file is untouched and tftpc's stderr reports the error; tftpc ends within the watchdog (40 s, 120 s for the long transfers). Non-trivial = non-default options or >= 2 blocks; distinct = distinct cases. Failures are re-run once in isolation.");
+    ctx.set_rule("the real tftpc is run against the real tftpd: {download, upload} x {single, multi port} x {IPv4, IPv6 loopback if available} x {plain, nested, Windows-style path} x blksize 8..65464 x windowsize 1..65535 x timeout 1..255 x file sizes {0, 1, blk-1, blk, blk+1, W*blk, (W+1)*blk, 2W*blk+r, random} (one burst kept below 100 KB), x server --duplicate-packets {0,1,2,3,10} x client --keep-on-error x an older, longer file at the destination, plus refusals (missing file, existing file without overwrite, read-only server), plus two >65535-block transfers at blksize 8. Oracle after tftpc exits: byte-identical files on both sides; a download is stored at <receive-directory>/<basename>, an upload at <server receive dir>/<basename>; on refusal no file appears on the client side, the server's file is untouched and tftpc's stderr reports the error; tftpc ends within the watchdog (40 s, 120 s for the long transfers). Non-trivial = non-default options or >= 2 blocks; distinct = distinct cases. Failures are re-run once in isolation.");
     ctx.assume("absolute local paths for tftpc -u are outside the generator (the client opens them relative to its cwd; the property quantifies over relative, nested and Windows-style paths)");
     ctx.assume("windowsize x blksize above the loopback socket buffer is exercised in the simulator and by C09's model client with an enlarged receive buffer, not with tftpc (kernel drops would make the run depend on timing)");
     let dirs = DirPool::new(ctx, "c14");
